@@ -502,6 +502,14 @@ def wrappers(v, blob):
     yield "Program.wrap(CLVMTree)", lambda: Program.wrap(CLVMTree.from_bytes(blob))
     yield "LazyNode", lambda: ext.deser_legacy(blob)
     yield "Fresh", lambda: Fresh(v)
+    # sub-trees that are raw LazyNode handles of *different* allocators (each deserialized on its own)
+    def mixed(x, depth):
+        if depth == 0 or not isinstance(x, tuple):
+            return ext.deser_legacy(wire_of(x))
+        return Simple(None, (mixed(x[0], depth - 1), mixed(x[1], depth - 1)))
+    if isinstance(v, tuple):
+        yield "Simple(LazyNode x2)", lambda: mixed(v, 1)
+        yield "Simple(LazyNode x4)", lambda: mixed(v, 2)
     yield "Simple(shared)", lambda: build_shared(v, lambda a: Simple(a, None), lambda l, r: Simple(None, (l, r)))[0]
     yield "Program.new(shared)", lambda: build_shared(v, Program.new_atom, Program.new_pair)[0]
 
@@ -617,7 +625,39 @@ def oracle_c26heap(seed, n, tier):
     rep.emit()
 
 
-ORACLES = {"c27": oracle_c27, "c28run": oracle_c28run, "c26heap": oracle_c26heap}
+def oracle_c26big(seed, n, tier):
+    """serializers of the wheel vs the Rust core around the 2,000,000-byte output cap of node_to_bytes:
+    ser_legacy has the cap (in the core), ser_backrefs and ser_2026 have none"""
+    rep = Report()
+    blobs = []
+    for ln in (1_999_990, 1_999_996, 1_999_997, 2_100_000):
+        blobs.append(("atom%d" % ln, _prefix(bytes(ln)) + bytes([0x5a]) * ln))
+    items = b""
+    for i in range(40):
+        a = bytes([i + 1]) * 65536
+        items += b"\xff" + _prefix(a) + a
+    blobs.append(("list40x64k", items + b"\x80"))
+    lines = []
+    k = 0
+    for name, blob in blobs:
+        for de, se in (("legacy", "backrefs"), ("legacy", "legacy"), ("legacy", "2026"), ("backrefs", "backrefs")):
+            lines.append("PYSERDE b%d %s %s %s" % (k, de, se, blob.hex()))
+            k += 1
+    rs = h_run(lines)
+    for line, r in zip(lines, rs):
+        rep.evaluations += 1
+        rep.nontrivial += 1
+        py = handle(line)
+        rep.hit("rust:" + " ".join(r.split(" ")[1:2]))
+        head = " ".join(line.split(" ")[:4])
+        if py != r:
+            rep.fail("c26_big_output", "request=%s <%d hex digits> rust=%s python=%s" % (head, len(line.split(" ")[4]), r[:80], py[:80]))
+        else:
+            rep.sample("%s -> %s" % (head, r[:60]))
+    rep.emit()
+
+
+ORACLES = {"c26big": oracle_c26big, "c27": oracle_c27, "c28run": oracle_c28run, "c26heap": oracle_c26heap}
 
 
 def main():
